@@ -242,9 +242,10 @@ def check_equal(rep, rule, key, where, actual, expected, what, undecided_note=''
         a_ = actual.rat if isinstance(actual, CallV) else actual
         e_ = expected.rat if isinstance(expected, CallV) else expected
         agree = False
-        if isinstance(a_, Rat) and isinstance(e_, Rat):
+        if isinstance(a_, Rat) and isinstance(e_, Rat) and _only_branch_generators_differ(a_, e_):
+            # generator independence can fail for sqrt / abs (sqrt(c**2) is c where c >= 0): look at the values before calling it different
             try:
-                agree = alg.numeric_agree(a_, e_, _DefaultRanges(), trials=6, rel=1e-9)
+                agree = alg.numeric_agree(a_, e_, _DefaultRanges(), trials=6, rel=1e-12)
             except RecursionError:
                 agree = False
         if agree:
@@ -657,6 +658,18 @@ def singular_point(u, kind, names, starts, shared):
     if best is not None and best[0] < 1e-9:
         return best[1], value(best[1])
     return None
+
+
+def _only_branch_generators_differ(a, b):
+    """the generators that occur (at any depth, definitions looked through) in exactly one of the two forms are all square roots / absolute
+    values - the generators for which 'different atoms' does not imply 'different functions on the domain'"""
+    da = set(k for k in a.atoms(deep=True) if not (alg.TABLE.atoms[k].kind == 'fn' and alg.TABLE.atoms[k].name == 'def'))
+    db = set(k for k in b.atoms(deep=True) if not (alg.TABLE.atoms[k].kind == 'fn' and alg.TABLE.atoms[k].name == 'def'))
+    one = da ^ db
+    if not one:
+        return False
+    names = set(alg.TABLE.atoms[k].name if alg.TABLE.atoms[k].kind == 'fn' else '<' + alg.TABLE.atoms[k].kind + '>' for k in one)
+    return names <= {'sqrt', 'abs'}
 
 
 def conditioning_probe(actual, expected):
